@@ -513,7 +513,6 @@ def rule_greedy_disjoint(ctx):
         r = strip_casts(fn.expr_of_operand(t["args"][1]))
         if r[0] == "agg" and str(r[1]).endswith("RangeFrom::RangeFrom") and isinstance(r[2], dict) and "start" in r[2]:
             fwd.append((bi, r[2]["start"]))
-    ctx.floor("forward views haystack[X..] in the greedy matcher", len(fwd), 1)
 
     def atom(x):
         if is_param(x, P_START):
@@ -556,6 +555,93 @@ def rule_greedy_disjoint(ctx):
         if e[0] == "bin" and e[1] in ("Add", "Sub"):
             return [("bin", e[1], a_, b_) for a_ in candidates(e[2], at, depth + 1, stack, fn) for b_ in candidates(e[3], at, depth + 1, stack, fn)]
         return [e]
+    if not fwd:
+        # the walk has moved to the callers (the greedy matcher takes a complete window): judge the forward views there,
+        # relative to the `start` each caller passes on
+        n_ext = 0
+        for f2, cbi, ct in calls_to(facts, M, lambda t_: callee(t_) == GREEDY):
+            hay_e = strip_casts(f2.expr_of_operand(ct["args"][names["haystack"] - 1]))
+            start_e = strip_casts(f2.expr_of_operand(ct["args"][P_START - 1]))
+            for bi, t in f2.calls(lambda t: callee(t).endswith("::index")):
+                if len(t["args"]) < 2 or bi not in f2.reach_from(0) or cbi not in f2.reach_from(bi):
+                    continue
+                b0 = strip_casts(f2.expr_of_operand(t["args"][0]))
+                h0 = hay_e
+                while b0[0] in ("ref", "deref"):
+                    b0 = strip_casts(b0[1])
+                while h0[0] in ("ref", "deref"):
+                    h0 = strip_casts(h0[1])
+                if repr(b0) != repr(h0):
+                    continue
+                r = strip_casts(f2.expr_of_operand(t["args"][1]))
+                if not (r[0] == "agg" and str(r[1]).endswith("RangeFrom::RangeFrom") and isinstance(r[2], dict) and "start" in r[2]):
+                    continue
+                n_ext += 1
+
+                def at2(x, start_e=start_e):
+                    return "S" if repr(strip_casts(x)) == repr(start_e) else None
+                for c in candidates(r[2]["start"], bi, fn=f2):
+                    d = poly_of(c, at2) - Poly.atom("S")
+                    if not d.atoms() and not d.has_opaque():
+                        k = int(d.t.get((), 0))
+                        if k >= 1:
+                            ctx.ok(site(f2, bi), "forward scan (in the caller) starts at start + %d" % k)
+                        else:
+                            ctx.violation("%s|forward-scan|start" % f2.path, site(f2, bi),
+                                          "the forward scan for needle[1..] starts at start + %d, i.e. on the character that needle[0] has already consumed" % k)
+                    else:
+                        raise Inconclusive("%s: forward scan starts at %s" % (f2.path, show(c)[:100]))
+            # the same walk written as `tail.iter().try_fold(from, |pos, c| Some(pos + haystack[pos..].position(..)? + 1))`:
+            # the view starts at the accumulator, whose first value is `from` and which only grows
+            for fb, ft in f2.calls(lambda t: str(t.get("fn")).endswith("Iterator::try_fold")):
+                if cbi not in f2.reach_from(fb):
+                    continue
+                clo = f2.expr_of_operand(ft["args"][2]) if len(ft["args"]) > 2 else None
+                if not clo or clo[0] != "closure":
+                    continue
+                cf = get_fn(facts, M, clo[1])
+                views = []
+                for bi, t in cf.calls(lambda t: callee(t).endswith("::index")):
+                    if len(t["args"]) < 2:
+                        continue
+                    r = strip_casts(cf.expr_of_operand(t["args"][1]))
+                    if r[0] == "agg" and str(r[1]).endswith("RangeFrom::RangeFrom") and isinstance(r[2], dict) and "start" in r[2]:
+                        views.append((bi, strip_casts(r[2]["start"])))
+                for bi, x in views:
+                    if not (x[0] == "arg" and x[1] == 2):
+                        raise Inconclusive("%s: forward view inside a fold closure starts at %s" % (f2.path, show(x)[:80]))
+                    n_ext += 1
+
+                    def at2(y, start_e=start_e):
+                        return "S" if repr(strip_casts(y)) == repr(start_e) else None
+                    d = poly_of(unchecked(strip_casts(f2.expr_of_operand(ft["args"][1]))), at2) - Poly.atom("S")
+                    if d.atoms() or d.has_opaque():
+                        raise Inconclusive("%s: initial value of the fold accumulator %s" % (f2.path, show(f2.expr_of_operand(ft["args"][1]))[:80]))
+                    k = int(d.t.get((), 0))
+                    # the accumulator only moves forward: every Some(..) the closure returns is acc + (something unsigned)
+                    from cfg import decision_paths
+                    mono = True
+                    for conds, res in decision_paths(cf):
+                        if res is not None and res[0] == "agg" and str(res[1]).endswith("Option::Some"):
+                            v = unchecked(strip_casts(res[2].get("0")))
+                            ok_ = False
+                            y = v
+                            while y[0] == "bin" and y[1] == "Add":
+                                if strip_casts(y[2]) == ("arg", 2, cf.names.get(2)) or (strip_casts(y[2])[0] == "arg" and strip_casts(y[2])[1] == 2) or (strip_casts(y[3])[0] == "arg" and strip_casts(y[3])[1] == 2):
+                                    ok_ = True
+                                    break
+                                y = strip_casts(y[2])
+                            mono = mono and ok_
+                    if k >= 1 and mono:
+                        ctx.ok(site(cf, bi), "forward scan (fold over needle[1..]) starts at start + %d and only moves forward" % k)
+                    elif k < 1:
+                        ctx.violation("%s|forward-scan|start" % f2.path, site(cf, bi),
+                                      "the forward scan for needle[1..] starts at start + %d, i.e. on the character that needle[0] has already consumed" % k)
+                    else:
+                        raise Inconclusive("%s: the fold accumulator is not monotone" % f2.path)
+        ctx.floor("forward views haystack[X..] in the greedy matcher or its callers", n_ext, 1)
+        return
+    ctx.floor("forward views haystack[X..] in the greedy matcher", len(fwd), 1)
     need_contract = False
     for h, x in fwd:
         for c in candidates(x, h):
